@@ -24,15 +24,12 @@ byte-identical, all Fortran texts must be byte-identical (or generation must fai
 interpreter's events/states must be identical -- within each process and between the processes.  Nothing
 is generated in the calling process, so the verdict does not depend on its own hash seed.
 """
-import hashlib
 import json
 import os
 import random
 import subprocess
 import sys
 import time
-
-import numpy as np
 
 from dagrt import language as lang
 from dagrt.codegen.python import CodeGenerator as PyCodeGenerator
@@ -559,19 +556,19 @@ def bounded(payload):
     tier = payload.get("tier", "quick")
     seed = payload.get("seed", 0)
     rng = random.Random(seed)
-    n_ode = budget.get("ode_methods", 60 if tier == "quick" else 800)
-    n_gen = budget.get("builder_programs", 60 if tier == "quick" else 800)
+    n_ode = budget.get("ode_methods", 60 if tier == "quick" else 500)
+    n_gen = budget.get("builder_programs", 60 if tier == "quick" else 500)
     chunk = budget.get("chunk", 200)
     wall = budget.get("wall_s", 20 if tier == "quick" else 280)
     hows = QUICK_HOWS if tier == "quick" else FULL_HOWS
     active = {e.get("fingerprint") for e in payload.get("known", []) if e.get("fingerprint") in FINGERPRINTS}
 
-    inputs = []
     og = OdeGen(rng)
-    for _ in range(n_ode):
-        inputs.append(og.description())
-    for _ in range(n_gen):
-        inputs.append(builder_description(rng))
+    odes = [og.description() for _ in range(n_ode)]
+    gens = [builder_description(rng) for _ in range(n_gen)]
+    inputs = []                       # interleaved, so that a cut-off run still covers both populations
+    for i in range(max(n_ode, n_gen)):
+        inputs += odes[i:i + 1] + gens[i:i + 1]
     for i, inp in enumerate(inputs):
         inp["other"] = strip_other(inputs[i - 1]) if i else strip_other(inputs[-1])
 
@@ -648,7 +645,7 @@ def bounded(payload):
         if r.get("fails"):
             known_hits.append("%s: %s" % (e["id"], e["what"]))
     parts["failure_classes"] = {json.dumps([k[0], list(k[1])]): n for k, n in sorted(per_class.items(), key=str)}
-    samples = [strip_other(inputs[0])] + ([strip_other(inputs[n_ode])] if n_gen and len(inputs) > n_ode else [])
+    samples = [strip_other(x) for x in (odes[:1] + gens[:1])]
     return {"evaluations": evals, "distinct_nontrivial": len(distinct),
             "rule": "seeded random method descriptions: (i) integrator-style methods over a user-type state "
                     "(right-hand-side calls incl. nested and keyword form, vector temporaries, two-result "
